@@ -112,16 +112,18 @@ def medium_group(qbits=40, pbits=72, seed=1):
             else:
                 return False
         return True
-    while True:
+    found = False
+    while not found:
         q = rng.getrandbits(qbits) | (1 << (qbits - 1)) | 1
-        if is_prime(q):
-            break
-    while True:
-        k = rng.getrandbits(pbits - qbits) | (1 << (pbits - qbits - 1))
-        k += k % 2
-        p = k * q + 1
-        if p.bit_length() == pbits and is_prime(p):
-            break
+        if not is_prime(q):
+            continue
+        for _ in range(400):                # a few cofactors per q, then another q (narrow cofactor ranges may have none)
+            k = rng.getrandbits(pbits - qbits) | (1 << (pbits - qbits - 1))
+            k += k % 2
+            p = k * q + 1
+            if p.bit_length() == pbits and is_prime(p):
+                found = True
+                break
     h = 2
     while pow(h, k, p) == 1:
         h += 1
